@@ -450,6 +450,9 @@ pub enum Mid {
     With { distinct: bool },
     /// Cypher only: `WITH <all variables> LIMIT k` followed by `WHERE pred2`
     WithLimit(u8),
+    /// `WITH n<from> AS n<to>` (the alias *shadows* another bound variable when from != to; from == to is the
+    /// plain re-projection of one variable) followed by `WHERE pred2`; only the alias is in scope afterwards
+    WithRename { from: u8, to: u8 },
 }
 
 #[derive(Debug, Clone, PartialEq, Serialize, Deserialize)]
@@ -559,7 +562,7 @@ impl QuerySpec {
         if lang == Lang::Gql && (self.pred.as_ref().is_some_and(has_is_null) || self.pred2.as_ref().is_some_and(has_is_null)) {
             return None; // the GQL front end has no IS [NOT] NULL
         }
-        let (mut out, sc) = self.render_match();
+        let (mut out, mut sc) = self.render_match();
         if let Some(p) = &self.pred {
             out.push_str(" WHERE ");
             out.push_str(&render_pred(p, &sc));
@@ -572,6 +575,20 @@ impl QuerySpec {
                 }
                 let vars: Vec<String> = sc.nodes.iter().chain(sc.edges.iter()).cloned().collect();
                 out.push_str(&format!(" WITH {}{}", if *distinct { "DISTINCT " } else { "" }, vars.join(", ")));
+                if let Some(p) = &self.pred2 {
+                    out.push_str(" WHERE ");
+                    out.push_str(&render_pred(p, &sc));
+                }
+            }
+            Mid::WithRename { from, to } => {
+                if self.write.is_some() {
+                    return None;
+                }
+                let f = sc.nodes[*from as usize % sc.nodes.len()].clone();
+                let t = sc.nodes[*to as usize % sc.nodes.len()].clone();
+                out.push_str(&format!(" WITH {f} AS {t}"));
+                // only the alias is visible from here on
+                sc = Scope { nodes: vec![t], edges: Vec::new() };
                 if let Some(p) = &self.pred2 {
                     out.push_str(" WHERE ");
                     out.push_str(&render_pred(p, &sc));
@@ -870,9 +887,9 @@ pub fn query(write_pct: u32) -> impl Strategy<Value = QuerySpec> {
             let nnodes = sc.nodes.len() as u8;
             let single_scan = paths.len() == 1 && paths[0].hops.is_empty();
             let mid = if single_scan {
-                prop_oneof![3 => Just(Mid::None), 1 => any::<bool>().prop_map(|d| Mid::With { distinct: d }), 3 => (1u8..5).prop_map(Mid::WithLimit)].boxed()
+                prop_oneof![3 => Just(Mid::None), 1 => any::<bool>().prop_map(|d| Mid::With { distinct: d }), 3 => (1u8..5).prop_map(Mid::WithLimit), 2 => (0u8..4, 0u8..4).prop_map(|(from, to)| Mid::WithRename { from, to })].boxed()
             } else {
-                prop_oneof![6 => Just(Mid::None), 1 => any::<bool>().prop_map(|d| Mid::With { distinct: d })].boxed()
+                prop_oneof![6 => Just(Mid::None), 1 => any::<bool>().prop_map(|d| Mid::With { distinct: d }), 2 => (0u8..4, 0u8..4).prop_map(|(from, to)| Mid::WithRename { from, to })].boxed()
             };
             let write = prop_oneof![
                 (100 - write_pct) => Just(None),
